@@ -1023,6 +1023,13 @@ def callees_of(it, span=None):
     for m in it.get("macros", []):
         if inside(m["span"]):
             out.add(m["name"] + "!" + (";" if m.get("semi") else ""))
+    # closure literals: Verus knows nothing about the result of a closure without a spliced contract, so a closure
+    # that was not there when the proof was found is an unspecified callee like any other
+    k = 0
+    for c in it.get("closures", []):
+        if inside(c["span"]) and (span is None or c["span"] != list(span) and c["body"] != list(span)):
+            k += 1
+            out.add("closure#%d!" % k)
     return sorted(out)
 
 
